@@ -563,6 +563,274 @@ func genCompare(a *Args, rng *Rng) []caseSpec {
 	return out
 }
 
+// ---------- families added in the hardening round ----------
+
+// lesson 1 (state across calls): ONE manager, the same plugin name installed several times so
+// that the expected verdict changes between calls; a memo of the existing metadata, of the
+// listing or of a Get result inside the manager (or the package) shows up here.
+func genChains(a *Args, rng *Rng) []caseSpec {
+	var out []caseSpec
+	bin := func(n string) string { return "notation-" + n }
+	triples := [][3]string{
+		{"1.0.0", "1.1.0", "2.0.0"},
+		{"1.0.0-beta.2", "1.0.0-beta.11", "1.0.0-rc.1"},
+		{"9.0.0", "10.0.0", "10.0.1"},
+		{"1.0.0-alpha", "1.0.0-alpha.1", "1.0.0-alpha.beta"},
+		{"1.0.0-rc.1", "1.0.0-rc.1+build.9", "1.0.0"}, // middle = low up to build metadata
+	}
+	for ti, t := range triples {
+		lo, mid, hi := t[0], t[1], t[2]
+		for variant := 0; variant < 4; variant++ {
+			b := newHB("chains")
+			src := func(v string, k int) srcSpec {
+				switch (k + variant) % 3 {
+				case 0:
+					return fileSrc(bin("foo"), 0o755, b.ok("foo", v))
+				case 1:
+					return dirSrc("pkg", ef("LICENSE", 0o644, b.data("lic", 1)), ef(bin("foo"), 0o755, b.ok("foo", v)), ef("v-"+fmt.Sprint(k)+".so", 0o644, b.data("lib", k)))
+				}
+				return dirSrc("pkg", ef(bin("foo"), 0o644, b.ok("foo", v)), ef("zz.txt", 0o644, b.data("z", k)))
+			}
+			switch variant {
+			case 0: // up, up, then the middle one must be refused against the latest, not the first
+				b.install(src(lo, 0), false)
+				b.install(src(hi, 1), false)
+				b.install(src(mid, 2), false)
+				b.install(src(hi, 3), false) // equal
+				b.install(src(lo, 4), true)  // overwrite down
+				b.install(src(mid, 5), false) // now higher
+			case 1: // uninstall forgets everything
+				b.install(src(hi, 0), false)
+				b.uninstall("foo")
+				b.install(src(lo, 1), false)
+				b.install(src(mid, 2), false)
+				b.uninstall("foo")
+				b.uninstall("foo")
+			case 2: // refused, then accepted, then refused
+				b.install(src(mid, 0), false)
+				b.install(src(lo, 1), false)
+				b.install(src(hi, 2), false)
+				b.install(src(mid, 3), false)
+				b.install(src(mid, 4), true)
+				b.install(src(hi, 5), false)
+			case 3: // two plugins interleaved on the same manager
+				b.install(src(hi, 0), false)
+				b.install(fileSrc(bin("bar"), 0o755, b.ok("bar", lo)), false)
+				b.install(src(lo, 1), false)                                   // foo: refused
+				b.install(fileSrc(bin("bar"), 0o755, b.ok("bar", mid)), false) // bar: accepted
+				b.uninstall("foo")
+				b.install(src(lo, 2), false) // foo: fresh
+			}
+			_ = ti
+			out = append(out, b.done())
+		}
+	}
+	// a broken plugin repaired and broken again on the same manager
+	{
+		b := newHB("chains")
+		b.install(fileSrc(bin("foo"), 0o755, b.ok("foo", "1.0.0")), false)
+		b.install(fileSrc(bin("foo"), 0o755, b.malformed("nodesc", "foo", "2.0.0")), true) // refused: new metadata invalid
+		b.install(fileSrc(bin("foo"), 0o755, b.ok("foo", "latest")), true)                 // overwrite with an invalid version
+		b.install(fileSrc(bin("foo"), 0o755, b.ok("foo", "2.0.0")), false)                 // version error
+		b.install(fileSrc(bin("foo"), 0o755, b.ok("foo", "2.0.0")), true)
+		b.install(fileSrc(bin("foo"), 0o755, b.ok("foo", "2.0.0+again")), false) // equal
+		out = append(out, b.done())
+	}
+	return out
+}
+
+// lessons 2 and 4 (position): the odd entry at every position relative to the candidate, which
+// of several candidates is the executable one, and the position of the plugin in the root.
+func genPositions(a *Args, rng *Rng) []caseSpec {
+	var out []caseSpec
+	bin := func(n string) string { return "notation-" + n }
+	type odd struct {
+		label string
+		make  func(b *hb, name string, k int) entrySpec
+	}
+	odds := []odd{
+		{"plain", func(b *hb, name string, k int) entrySpec { return ef(name, 0o644, b.data("p", k)) }},
+		{"plain-exec", func(b *hb, name string, k int) entrySpec { return ef(name, 0o755, b.okSalt("foo", "7.7.7", k)) }},
+		{"empty-file", func(b *hb, name string, k int) entrySpec { return ef(name, 0o644, b.failing("empty")) }},
+		{"subdir-with-exec", func(b *hb, name string, k int) entrySpec {
+			return ed(name, fileSpec{bin("foo"), 0o755, b.okSalt("foo", "8.8.8", k)}, fileSpec{bin("sub"), 0o755, b.ok("sub", "1.0.0")})
+		}},
+		{"empty-subdir", func(b *hb, name string, k int) entrySpec { return ed(name) }},
+		{"link", func(b *hb, name string, k int) entrySpec { return el(name) }},
+	}
+	// names sorting before / after "notation-foo"; the candidate-like ones are used for sub-directories and links too
+	before := []string{"0-first", "notation-aaa", ".hidden", "notation", "NOTATION-foo"}
+	after := []string{"zz-last", "notation-zzz", "notation-foo.bak", "notation.txt", "~"}
+	for _, mainExec := range []bool{true, false} {
+		mode := uint32(0o644)
+		if mainExec {
+			mode = 0o755
+		}
+		for oi, o := range odds {
+			for pos := 0; pos < 3; pos++ { // 0 before, 1 after, 2 both
+				for ni := 0; ni < len(before); ni++ {
+					if a.Tier != "thorough" && (ni+oi+pos)%3 != 0 && ni > 1 {
+						continue
+					}
+					b := newHB("positions")
+					es := []entrySpec{ef(bin("foo"), mode, b.ok("foo", "1.0.0"))}
+					if pos == 0 || pos == 2 {
+						es = append(es, o.make(b, before[ni], 1))
+					}
+					if pos == 1 || pos == 2 {
+						es = append(es, o.make(b, after[ni], 2))
+					}
+					b.init("foo", fileSpec{bin("foo"), 0o755, b.ok("foo", "0.9.0")}, fileSpec{"old.so", 0o644, b.data("old", 9)})
+					b.install(dirSrc("pkg", es...), false)
+					out = append(out, b.done())
+				}
+			}
+		}
+	}
+	// which candidate is the executable one: k candidates, the executable at position j (or none)
+	cn := []string{"aaa", "foo", "mmm", "zzz"}
+	for k := 2; k <= 4; k++ {
+		for j := -1; j < k; j++ {
+			for j2 := j; j2 < k; j2++ { // a second executable at j2 > j (j2 == j: only one)
+				if j < 0 && j2 > j {
+					continue
+				}
+				b := newHB("positions")
+				var es []entrySpec
+				for i := 0; i < k; i++ {
+					m := uint32(0o644)
+					if i == j || i == j2 {
+						m = 0o755
+					}
+					es = append(es, ef(bin(cn[i]), m, b.ok(cn[i], "1.0.0")))
+				}
+				es = append(es, ef("LICENSE", 0o644, b.data("lic", 1)), ef("zz.txt", 0o644, b.data("z", 1)))
+				b.install(dirSrc("pkg", es...), false)
+				out = append(out, b.done())
+			}
+		}
+	}
+	// position of the plugin directory in the root: first / middle / last, install then uninstall
+	for _, others := range [][]string{{"goo", "hoo"}, {"aaa", "zzz"}, {"aaa", "bbb"}, {"fo", "foo2"}, {"Foo", "fOO"}} {
+		b := newHB("positions")
+		for _, o := range others {
+			b.init(o, fileSpec{bin(o), 0o755, b.ok(o, "1.0.0")}, fileSpec{"lib.so", 0o644, b.data("lib", 1)})
+		}
+		b.install(fileSrc(bin("foo"), 0o755, b.ok("foo", "1.0.0")), false)
+		b.install(fileSrc(bin(others[0]), 0o755, b.ok(others[0], "0.5.0")), false) // refused: the neighbour stays
+		b.install(fileSrc(bin(others[1]), 0o755, b.ok(others[1], "1.5.0")), false) // accepted
+		b.uninstall(others[0])
+		b.uninstall("foo")
+		b.uninstall(others[1])
+		out = append(out, b.done())
+	}
+	return out
+}
+
+// lesson 3 (empty vs absent vs nil) and lesson 5 (rarely used legal syntax)
+func genEdges(a *Args, rng *Rng) []caseSpec {
+	var out []caseSpec
+	bin := func(n string) string { return "notation-" + n }
+	ctxs := func(b *hb, ctx int) {
+		if ctx == 1 {
+			b.init("foo", fileSpec{bin("foo"), 0o755, b.ok("foo", "0.9.0")}, fileSpec{"old.so", 0o644, b.data("old", 9)})
+		}
+	}
+	type mk func(b *hb) srcSpec
+	srcs := map[string]mk{
+		// zero-length files
+		"empty-exec-file":      func(b *hb) srcSpec { return fileSrc(bin("foo"), 0o755, b.failing("empty")) },
+		"empty-nonexec-cand":   func(b *hb) srcSpec { return dirSrc("pkg", ef(bin("foo"), 0o644, b.failing("empty"))) },
+		"empty-extras":         func(b *hb) srcSpec { return dirSrc("pkg", ef(".keep", 0o644, b.failing("empty")), ef(bin("foo"), 0o755, b.ok("foo", "1.0.0")), ef("zz.empty", 0o600, b.failing("empty"))) },
+		"empty-extras-nonexec": func(b *hb) srcSpec { return dirSrc("pkg", ef("EMPTY", 0o644, b.failing("empty")), ef(bin("foo"), 0o644, b.ok("foo", "1.0.0")), ef("zz.empty", 0o755, b.failing("empty"))) },
+		// metadata: empty / absent / null / wrong type
+		"meta-null":       func(b *hb) srcSpec { return fileSrc(bin("foo"), 0o755, b.malformed("null", "foo", "1.0.0")) },
+		"meta-emptyobj":   func(b *hb) srcSpec { return fileSrc(bin("foo"), 0o755, b.malformed("emptyobj", "foo", "1.0.0")) },
+		"meta-emptyout":   func(b *hb) srcSpec { return fileSrc(bin("foo"), 0o755, b.malformed("emptyout", "foo", "1.0.0")) },
+		"meta-numver":     func(b *hb) srcSpec { return fileSrc(bin("foo"), 0o755, b.malformed("numver", "foo", "1.0.0")) },
+		"meta-nover":      func(b *hb) srcSpec { return fileSrc(bin("foo"), 0o755, b.malformed("nover", "foo", "1.0.0")) },
+		"meta-emptyver":   func(b *hb) srcSpec { return dirSrc("pkg", ef(bin("foo"), 0o755, b.malformed("emptyver", "foo", ""))) },
+		"meta-emptyname":  func(b *hb) srcSpec { return dirSrc("pkg", ef(bin("foo"), 0o644, b.malformed("emptyname", "", "1.0.0"))) },
+		"meta-emptycaps":  func(b *hb) srcSpec { return fileSrc(bin("foo"), 0o755, b.malformed("emptycaps", "foo", "1.0.0")) },
+		"meta-nocontract": func(b *hb) srcSpec { return fileSrc(bin("foo"), 0o755, b.malformed("nocontract", "foo", "1.0.0")) },
+		"meta-dupname":    func(b *hb) srcSpec { return fileSrc(bin("foo"), 0o755, b.cid(contentSpec{Kind: "ok", Variant: "dupname", Name: "foo", Version: "1.0.0"})) },
+		"meta-dupname-dir": func(b *hb) srcSpec {
+			return dirSrc("pkg", ef(bin("foo"), 0o644, b.cid(contentSpec{Kind: "ok", Variant: "dupname", Name: "foo", Version: "1.0.0"})), ef("zz", 0o644, b.data("z", 1)))
+		},
+		// letter case: neither the prefix nor the plugin name is folded
+		"case-file-Foo-meta-foo": func(b *hb) srcSpec { return fileSrc(bin("Foo"), 0o755, b.ok("foo", "1.0.0")) },
+		"case-file-foo-meta-FOO": func(b *hb) srcSpec { return fileSrc(bin("foo"), 0o755, b.ok("FOO", "1.0.0")) },
+		"case-dir-foo-meta-Foo":  func(b *hb) srcSpec { return dirSrc("pkg", ef(bin("foo"), 0o644, b.ok("Foo", "1.0.0")), ef("zz", 0o644, b.data("z", 1))) },
+		"case-prefix-upper":      func(b *hb) srcSpec { return fileSrc("NOTATION-foo", 0o755, b.ok("foo", "1.0.0")) },
+		"case-prefix-mixed-dir":  func(b *hb) srcSpec { return dirSrc("pkg", ef("Notation-foo", 0o755, b.ok("foo", "1.0.0")), ef("lib.so", 0o644, b.data("l", 1))) },
+		// the prefix occurs twice / not at the start / the name has dots and hyphens
+		"name-notation-foo":   func(b *hb) srcSpec { return fileSrc("notation-notation-foo", 0o755, b.ok("notation-foo", "1.0.0")) },
+		"name-notation-foo-2": func(b *hb) srcSpec { return fileSrc("notation-notation-foo", 0o755, b.ok("foo", "1.0.0")) },
+		"name-notation-foo-dir": func(b *hb) srcSpec {
+			return dirSrc("pkg", ef("notation-notation-foo", 0o644, b.ok("notation-foo", "1.0.0")), ef("zz", 0o644, b.data("z", 1)))
+		},
+		"name-notation-":     func(b *hb) srcSpec { return fileSrc("notation-notation-", 0o755, b.ok("notation-", "1.0.0")) },
+		"name-inner-prefix":  func(b *hb) srcSpec { return fileSrc("x-notation-foo", 0o755, b.ok("foo", "1.0.0")) },
+		"name-inner-prefix-dir": func(b *hb) srcSpec { return dirSrc("pkg", ef("x-notation-foo", 0o755, b.ok("foo", "1.0.0"))) },
+		"name-ext":           func(b *hb) srcSpec { return fileSrc("notation-foo.exe", 0o755, b.ok("foo.exe", "1.0.0")) },
+		"name-ext-stripped":  func(b *hb) srcSpec { return fileSrc("notation-foo.exe", 0o755, b.ok("foo", "1.0.0")) },
+		"name-hyphens":       func(b *hb) srcSpec { return fileSrc("notation-a-b-c", 0o755, b.ok("a-b-c", "1.0.0")) },
+		"name-hidden":        func(b *hb) srcSpec { return fileSrc("notation-.hidden", 0o755, b.ok(".hidden", "1.0.0")) },
+		"name-space-end":     func(b *hb) srcSpec { return fileSrc("notation-foo ", 0o755, b.ok("foo", "1.0.0")) },
+		"name-space-end-ok":  func(b *hb) srcSpec { return fileSrc("notation-foo ", 0o755, b.ok("foo ", "1.0.0")) },
+		// hidden files are files
+		"dotfiles": func(b *hb) srcSpec {
+			return dirSrc("pkg", ef(".gitignore", 0o644, b.data("gi", 1)), ef(".notation-foo", 0o755, b.ok("foo", "3.0.0")), ef(bin("foo"), 0o755, b.ok("foo", "1.0.0")), ef("~cache", 0o600, b.data("c", 1)))
+		},
+		"dotfiles-nonexec": func(b *hb) srcSpec { return dirSrc(".pkg", ef(".env", 0o600, b.data("env", 1)), ef(bin("foo"), 0o644, b.ok("foo", "1.0.0"))) },
+		"dot-subdir":       func(b *hb) srcSpec { return dirSrc("pkg", ed(".git", fileSpec{"HEAD", 0o644, b.data("h", 1)}), ef(bin("foo"), 0o755, b.ok("foo", "1.0.0"))) },
+		// path forms
+		"slash-exec": func(b *hb) srcSpec {
+			s := dirSrc("pkg", ef("LICENSE", 0o644, b.data("lic", 1)), ef(bin("foo"), 0o755, b.ok("foo", "1.0.0")), ed("docs", fileSpec{"x", 0o644, b.data("x", 1)}))
+			s.Slash = true
+			return s
+		},
+		"slash-nonexec": func(b *hb) srcSpec {
+			s := dirSrc("pkg", ef(bin("foo"), 0o644, b.ok("foo", "1.0.0")), ef("zz", 0o644, b.data("z", 1)), ed("pkg", fileSpec{bin("foo"), 0o755, b.okSalt("foo", "5.0.0", 3)}))
+			s.Slash = true
+			return s
+		},
+		"vialink":         func(b *hb) srcSpec { s := fileSrc(bin("foo"), 0o755, b.ok("foo", "1.0.0")); s.ViaLink = true; return s },
+		"vialink-nonexec": func(b *hb) srcSpec { s := fileSrc(bin("foo"), 0o644, b.ok("foo", "1.0.0")); s.ViaLink = true; return s },
+	}
+	var labels []string
+	for l := range srcs {
+		labels = append(labels, l)
+	}
+	sort.Strings(labels)
+	for _, l := range labels {
+		for ctx := 0; ctx < 2; ctx++ {
+			for _, ow := range []bool{false, true} {
+				if ow && ctx == 0 && a.Tier != "thorough" {
+					continue
+				}
+				b := newHB("edges")
+				ctxs(b, ctx)
+				b.install(srcs[l](b), ow)
+				out = append(out, b.done())
+			}
+		}
+	}
+	// a root holding directories whose names differ by case / are empty of files / absent
+	{
+		b := newHB("edges")
+		b.init("Foo", fileSpec{bin("Foo"), 0o755, b.ok("Foo", "2.0.0")})
+		b.init("empty")
+		b.install(fileSrc(bin("foo"), 0o755, b.ok("foo", "1.0.0")), false) // not a downgrade of "Foo"
+		b.install(fileSrc(bin("empty"), 0o755, b.ok("empty", "1.0.0")), false)
+		b.uninstall("FOO")
+		b.uninstall("Foo")
+		b.uninstall("foo")
+		out = append(out, b.done())
+	}
+	return out
+}
+
 // ---------- corpus: regression inputs (JSON files holding a caseSpec) ----------
 
 func genCorpus(a *Args) []caseSpec {
@@ -594,6 +862,9 @@ func generate(a *Args) []caseSpec {
 	out = append(out, genCorpus(a)...)
 	out = append(out, genShapes(a, rng.Fork(1))...)
 	out = append(out, genBroken(a, rng.Fork(2))...)
+	out = append(out, genChains(a, rng.Fork(6))...)
+	out = append(out, genPositions(a, rng.Fork(7))...)
+	out = append(out, genEdges(a, rng.Fork(8))...)
 	out = append(out, genPairs(a, rng.Fork(3))...)
 	nrand := 250
 	if a.Tier == "thorough" {
